@@ -1,6 +1,8 @@
 """Shared machinery for the decompiler checks (C02, C06, C09, C13)."""
 from __future__ import annotations
 
+import copy
+
 from hypothesis import strategies as st
 
 from vf import gen_prog, gen_ssb, render
@@ -25,6 +27,13 @@ def materialise(case, stt):
     """-> (ssb case, program AST or None) or (None, None) when the compiler rejected the program"""
     s = case.get("stratum")
     if s in (1, 2) and "prog" in case:
+        # C02/C06/C09 quantify over routine sets in which every path ends in a flow-ending op:
+        # give every routine a final terminator
+        prog = copy.deepcopy(case["prog"])
+        for r in prog["routines"]:
+            if not r.get("alias") and not (r["body"] and r["body"][-1]["k"] == "ctl" and r["body"][-1]["v"] in ("return", "end", "hold")):
+                r["body"].append({"k": "ctl", "v": "return"})
+        case = dict(case, prog=prog)
         text = render.render(case["prog"]).text
         comp, exc = call_guard(lambda: compile_text(text))
         if exc is not None:
